@@ -65,6 +65,11 @@ def variant(spec, vi, ci, ctx):
         q = cont[key]
         us = SI.units(q['k'])
         u = us[(ci * 3 + vi + ri * 5 + hash_role(role)) % len(us)]
+        if q['k'] in ('Time', 'TimeInterval') and q['v'] != 0 and abs(GEN.qsi(q)) / SI.FACT['Time'][u] < 1e-6:
+            # a time value below 1e-6 in its unit enters the zone of the library's absolute 1e-12 comparison tolerance
+            # (defect D9, recorded under C05): that unit is left to baselines with slower dynamics
+            ctx.count('time_units_skipped_d9_zone')
+            u = q['u']
         if u != q['u']:
             cont[key] = GEN.reexpress(q, u)
             n_changed += 1
